@@ -114,7 +114,8 @@ def c04(tier, seed):
         rule="fault = corruption of one encrypted chunk k (bit flip in its payload, bit flip in its tag, truncation inside it) of a valid encrypted archive, "
              "for every chunk index; contents are aligned so that a block header starts chunk k+1; the authenticated repair output is compared with the bytes "
              "the model finds in the plaintext of chunks 0..k-1 (upper bound) and with the unauthenticated output; distinct = distinct (program, fault); all are non-trivial",
-        musthit=["musthit:k0", "musthit:klast", "musthit:kmid", "musthit:kmid_with_block_header_at_next_chunk", "musthit:adversarial_content_parses_as_blocks"],
+        musthit=["musthit:k0", "musthit:klast", "musthit:kmid", "musthit:kmid_with_block_header_at_next_chunk", "musthit:adversarial_content_parses_as_blocks",
+                 "musthit:flip_in_the_file_id_of_a_content_block"],
     )
 
 
@@ -395,7 +396,8 @@ def c20(tier, seed):
              "handles, handles the interface cleared, and null callbacks, each in its own process: error status, no crash, no sanitizer report; "
              "distinct = distinct case; all non-trivial",
         musthit=["held:create_read_back_by_rust_reader", "held:extract_hands_exact_bytes", "held:callback_failure_gives_error_status",
-                 "held:invalid_handle_gives_error_status", "create:valgrind", "extract:valgrind", "null_or_stale_handle_call"],
+                 "held:invalid_handle_gives_error_status", "create:valgrind", "extract:valgrind", "null_or_stale_handle_call",
+                 "create:write_callback_reports_interruptions"],
     )
 
 
